@@ -21,7 +21,7 @@
 #endif
 /* preprocessor-evaluable forms */
 #define PP_NULL_SLOT ((1ULL << (8 * ARDUINOJSON_SLOT_ID_SIZE)) - 1)
-#define PP_MAXPOOLS (PP_NULL_SLOT / ARDUINOJSON_POOL_CAPACITY + 1)
+#define PP_MAXPOOLS ((PP_NULL_SLOT + ARDUINOJSON_POOL_CAPACITY - 1) / ARDUINOJSON_POOL_CAPACITY)
 #define CFG_CAP ((uint64_t)ARDUINOJSON_POOL_CAPACITY)
 #define CFG_INITIAL ((uint64_t)ARDUINOJSON_INITIAL_POOL_COUNT)
 #define CFG_NULL_SLOT ((uint64_t)((1ULL << (8 * ARDUINOJSON_SLOT_ID_SIZE)) - 1))
